@@ -8,6 +8,8 @@
 (*   load   the record abstracted from the object that was loaded, the     *)
 (*          answer of the class's own == / equals, and for a mesh whether  *)
 (*          it was recomputed from its triangulation                       *)
+(*   remove the file was removed; a second made / save / load follows on   *)
+(*          the SAME path with another object of the same shape            *)
 (* and must be a behaviour of Persist; LoadSaveIdentity,                   *)
 (* FileHoldsContent and MeshRestoredEqualsRecomputed are evaluated in      *)
 (* every state.                                                            *)
@@ -23,7 +25,7 @@ Ev == T.ev[l]
 
 TInit == /\ tid \in 1..Len(Batch) /\ l = 1
          /\ kind = Batch[tid].kind /\ shape = Batch[tid].shape /\ pc = "choose"
-         /\ saved = Nothing /\ file = Nothing /\ loaded = Nothing
+         /\ saved = Nothing /\ file = Nothing /\ loaded = Nothing /\ memo = Nothing /\ gen = 1
 
 IsEv(e) == l <= Len(T.ev) /\ Ev.ev = e /\ l' = l + 1 /\ UNCHANGED tid
 
@@ -38,6 +40,7 @@ ShapeMatches(s, sv) ==
     [] kind = "mesh" -> \A a \in MeshArrays : sv[a] # 0
     [] kind = "solution" -> /\ Len(sv.frames) = s.nframes /\ SolOK(s) /\ sv.frames[s.cur] # 0
                             /\ sv.dyn.dt # 0 /\ sv.dyn.time # 0 /\ sv.times # 0 /\ sv.closest # 0
+                            /\ sv.mesh # 0 /\ sv.currents # 0
                             \* a run without a completed step (one frame) has no per-step records at all
                             /\ (sv.dyn.mu # 0) = (s.probes /\ s.nframes > 1) /\ (sv.dyn.theta # 0) = (s.probes /\ s.nframes > 1)
                             /\ (sv.dyn.screening_iterations # 0) = (s.screening /\ s.nframes > 1)
@@ -47,14 +50,17 @@ TMade == /\ IsEv("made") /\ Materialise(Ev.saved) /\ ShapeMatches(shape, Ev.save
 TSave == /\ IsEv("save") /\ Ev.ok /\ Save
          /\ CASE kind = "options" -> file' = Ev.rec
               [] kind \in {"device", "mesh"} -> file'.present = SeqToSet(Ev.present) /\ file'.rec = Ev.rec
-              [] kind = "solution" -> file'.frames = Ev.rec.frames
+              [] kind = "solution" -> file'.frames = Ev.rec.frames /\ file'.mesh = Ev.rec.mesh
 
 TLoad == /\ IsEv("load") /\ Ev.ok /\ Load
          /\ Ev.eq = "T"
          /\ CASE kind = "mesh" -> loaded'.rec = Ev.rec /\ loaded'.recomputed = Ev.recomputed
               [] OTHER -> loaded' = Ev.rec
 
-TNext == TMade \/ TSave \/ TLoad
+\* the second object saved under the path must really be another one (else the history shows nothing)
+TRemove == /\ IsEv("remove") /\ Ev.ok /\ Remove
+TMadeAgain == pc = "removed" => (Ev.saved # saved)
+TNext == (TMade /\ TMadeAgain) \/ TSave \/ TLoad \/ TRemove
 TSpec == TInit /\ [][TNext]_tvars
 
 Accepted == (l = Len(T.ev) + 1) => PrintT(<<"ACCEPT", tid>>)
